@@ -356,7 +356,7 @@ class Prog:
                     spec = ":" + r.choice([">10", "<5", "^8", "03d", ".2f", "x", "", ">{w}", "{w}.{p}", " >4", "#x"])
                     if depth > 0 and r.random() < 0.2:
                         spec = ":{" + r.choice(IDENTS) + "}"
-                eq = "=" if r.random() < 0.1 else ""
+                eq = r.choice(["=", " = ", "= "]) if r.random() < 0.2 else ""
                 if eq:
                     self.f("fstring_debug")
                 sp1 = " " if r.random() < 0.15 else ""
